@@ -45,7 +45,9 @@ class InferredGeometry3d(Geometry3d):
 
     @staticmethod
     def get_range(ids):
-        return min(ids), max(ids), (max(ids) - min(ids)) // (len(ids) - 1)
+        # The increment is the largest one which reaches every line number present: lines may be missing altogether
+        ids = sorted(ids)
+        return ids[0], ids[-1], int(np.gcd.reduce(np.diff(ids)))
 
     def __repr__(self):
         return f'IL:[{self.min_il},{self.max_il},{self.il_step}] -- XL:[{self.min_xl},{self.max_xl},{self.xl_step}]'
